@@ -500,6 +500,24 @@ func c18LingeringResponse(u *vfUnit, e *c18Env) {
 			os.WriteFile(filepath.Join(dir, tag), content, 0o644)
 			return cfg, filepath.Join(dir, tag), func() { os.RemoveAll(dir) }
 		}
+		// (round 1: another session of the same kind is in the middle of a burst all the while, holding dozens of pages:
+		// whatever is kept between sessions is then in demand)
+		var crowd *vfRawSession
+		var cleanCrowd func()
+		if round == 1 {
+			cfgC, pathC, cl := mk("crowd", 'C')
+			cleanCrowd = cl
+			if rsC, err := vfRawConnect(cfgC, vfPipeOpts{Buf: 64}, true); err == nil {
+				crowd = rsC
+				if r, err := rsC.R.Phase(60*time.Second, vfPkt{Type: rfOpen, ID: 2, Path: pathC, Pflags: rfRead_}); err == nil && len(r) == 1 && r[0].Type == rfHandle {
+					var burst []byte
+					for i := 0; i < 48; i++ {
+						burst = append(burst, vfPkt{Type: rfRead, ID: uint32(100 + i), Handle: r[0].Handle, Off: 0, Len: size}.Frame()...)
+					}
+					rsC.R.Send(burst)
+				}
+			}
+		}
 		cfg1, path1, clean1 := mk("first", 'B')
 		ce, se := vfPipe(vfPipeOpts{Buf: 64})
 		srv, err := vfServe(cfg1, se)
@@ -576,7 +594,11 @@ func c18LingeringResponse(u *vfUnit, e *c18Env) {
 			reqs = append(reqs, vfPkt{Type: rfOpen, ID: 70, Path: path2, Pflags: rfRead_})
 			resp, perr := rs2.R.Phase(60*time.Second, reqs...)
 			if perr == nil && len(resp) == 7 && resp[6].Type == rfHandle {
-				rs2.R.Phase(60*time.Second, vfPkt{Type: rfRead, ID: 71, Handle: resp[6].Handle, Off: 0, Len: size})
+				var reads []vfPkt
+				for i := 0; i < 40; i++ {
+					reads = append(reads, vfPkt{Type: rfRead, ID: uint32(71 + i), Handle: resp[6].Handle, Off: 0, Len: size})
+				}
+				rs2.R.Phase(60*time.Second, reads...)
 			}
 		}
 		// now the first peer reads the rest of its response
@@ -592,6 +614,12 @@ func c18LingeringResponse(u *vfUnit, e *c18Env) {
 		}
 		clean2()
 		finish()
+		if crowd != nil {
+			crowd.End(60 * time.Second)
+		}
+		if cleanCrowd != nil {
+			cleanCrowd()
+		}
 	}
 }
 
